@@ -64,6 +64,38 @@ Section RT.
 
   (* ---- BpCopyBufferBits, bitproto.c:249-343.  dm/sm: the destination/source objects,
      dp/sp: byte offsets of the pointers dst/src inside them. ---- *)
+  (* one iteration of the loop body after the pointer bumps: (new destination object, c) *)
+  Definition copy_step (n : Z) (dm : list Z) (dp : Z) (sm : list Z) (sp : Z) (di si : Z)
+    : cres (list Z * Z) :=
+    if cp_aligned di then                                                  (* L266 if (di == 0) *)
+      let bits := cp_bits n si in                                          (* L271 *)
+      if fast_paths && cp_thr32 bits then                                  (* L274,279 *)
+        w <-- ld E (Z.to_nat cp_w32) sm sp ;;                              (* L282 *)
+        dm' <-- st E (Z.to_nat cp_w32) dm dp (cp_v32 w si) ;;
+        COk (dm', cp_c32 si)                                               (* L283 *)
+      else if fast_paths && cp_thr16 bits then                             (* L285 *)
+        w <-- ld E (Z.to_nat cp_w16) sm sp ;;                              (* L287 *)
+        dm' <-- st E (Z.to_nat cp_w16) dm dp (cp_v16 w si) ;;
+        COk (dm', cp_c16 si)                                               (* L288 *)
+      else if cp_thr8 bits then                                            (* L293-294 *)
+        b <-- rd sm sp ;;
+        dm' <-- wr dm dp (cp_v8 b si) ;;                                   (* L296 *)
+        COk (dm', cp_c8 si)                                                (* L297 *)
+      else
+        let c := cp_c_part si n in                                         (* L307 *)
+        b <-- rd sm sp ;;
+        old <-- rd dm dp ;;
+        dm' <-- wr dm dp (cp_v_part old b si c) ;;                         (* L309 *)
+        COk (dm', c)
+    else
+      let c := cp_c_un di si n in                                          (* L322 *)
+      ch <-- rd sm sp ;;                                                   (* L334 *)
+      if cp_nonzero ch then                                                (* L335 if (ch) *)
+        old <-- rd dm dp ;;
+        dm' <-- wr dm dp (cp_v_un old ch si di c) ;;
+        COk (dm', c)
+      else COk (dm, c).
+
   Fixpoint copy_bits (fuel : nat) (n : Z) (dm : list Z) (dp : Z) (sm : list Z) (sp : Z) (di si : Z)
     : cres (list Z) :=
     if n =? 0 then COk dm                                                  (* L252 while (n) *)
@@ -75,34 +107,7 @@ Section RT.
           let sp := sp + cp_src_bump si in                                 (* L256 src += si >> 3 *)
           let di := cp_di_low di in                                        (* L260 di &= 7 *)
           let si := cp_si_low si in                                        (* L261 si &= 7 *)
-          r <-- (if cp_aligned di then                                     (* L266 if (di == 0) *)
-                   let bits := cp_bits n si in                             (* L271 *)
-                   if fast_paths && cp_thr32 bits then                     (* L274,279 *)
-                     w <-- ld E (Z.to_nat cp_w32) sm sp ;;                 (* L282 *)
-                     dm' <-- st E (Z.to_nat cp_w32) dm dp (cp_v32 w si) ;;
-                     COk (dm', cp_c32 si)                                  (* L283 *)
-                   else if fast_paths && cp_thr16 bits then                (* L285 *)
-                     w <-- ld E (Z.to_nat cp_w16) sm sp ;;                 (* L287 *)
-                     dm' <-- st E (Z.to_nat cp_w16) dm dp (cp_v16 w si) ;;
-                     COk (dm', cp_c16 si)                                  (* L288 *)
-                   else if cp_thr8 bits then                               (* L293-294 *)
-                     b <-- rd sm sp ;;
-                     dm' <-- wr dm dp (cp_v8 b si) ;;                      (* L296 *)
-                     COk (dm', cp_c8 si)                                   (* L297 *)
-                   else
-                     let c := cp_c_part si n in                            (* L307 *)
-                     b <-- rd sm sp ;;
-                     old <-- rd dm dp ;;
-                     dm' <-- wr dm dp (cp_v_part old b si c) ;;            (* L309 *)
-                     COk (dm', c)
-                 else
-                   let c := cp_c_un di si n in                             (* L322 *)
-                   ch <-- rd sm sp ;;                                      (* L334 *)
-                   if cp_nonzero ch then                                   (* L335 if (ch) *)
-                     old <-- rd dm dp ;;
-                     dm' <-- wr dm dp (cp_v_un old ch si di c) ;;
-                     COk (dm', c)
-                   else COk (dm, c)) ;;
+          r <-- copy_step n dm dp sm sp di si ;;                           (* L264-336 *)
           copy_bits f (n - snd r) (fst r) dp sm sp (di + snd r) (si + snd r)   (* L339-341 *)
       end.
 
